@@ -463,6 +463,14 @@ class Evaluator(object):
             a = _single_atom(v)
             if a is not None and a.kind == 'fn' and a.name in COND_NAMES:
                 return v
+            if a is not None and a.kind == 'fn' and a.name == 'ite' and len(a.args) == 3 and all(isinstance(x, Rat) for x in a.args):
+                # the value of `x and Y` is ite(truthy(x), Y, x), of `x or Y` ite(truthy(x), x, Y): their truth is the conjunction / disjunction
+                c0 = _single_atom(a.args[0])
+                if c0 is not None and c0.kind == 'fn' and c0.name == 'truthy' and isinstance(c0.args[0], Rat):
+                    if c0.args[0].equals(a.args[2]):
+                        return self.cand(a.args[0], self.truth(a.args[1], node))
+                    if c0.args[0].equals(a.args[1]):
+                        return self.cor(a.args[0], self.truth(a.args[2], node))
             return alg.opaque('truthy', (v,))
         if isinstance(v, IteV):
             return self.ite(v.cond, self.truth(v.a), self.truth(v.b))
@@ -1426,7 +1434,10 @@ class Evaluator(object):
             if r is not NotImplemented:
                 return r
         if f.qualname in self.opaque:
-            keys = tuple(argkey(full.get(p.name, NONE)) for p in f.params)
+            # a freshly built DECAngle(d) handed to a module-level function stands for d: those functions pass their angle arguments through
+            # angular_typecheck (object -> .dec() -> dec_angle), which the R-UNITS / R-DISPATCH rules check where it matters
+            norm_ = _dec_object_is_its_degrees if f.cls is None else None
+            keys = tuple(argkey(norm_(full.get(p.name, NONE)) if norm_ is not None else full.get(p.name, NONE)) for p in f.params)
             return CallV(alg.opaque('call:' + f.qualname, keys), f.qualname)
         if sum(1 for s in self._stack if s is f) >= 2 or len(self._stack) > self.inline_depth + 8:
             keys = tuple(argkey(full.get(p.name, NONE)) for p in f.params)
@@ -1585,6 +1596,21 @@ class Evaluator(object):
             if short == 'isinstance' and len(a) == 2:
                 if isinstance(a[0], Obj) and isinstance(a[1], Ref) and isinstance(a[1].target, Class):
                     return Bool(a[0].cls is a[1].target)
+                if isinstance(a[0], Obj) and a[0].cls is not None:
+                    # an object of a repository class against builtin types (or a tuple of classes): true when the class IS one of them
+                    # or derives from it (class DECAngle(float): an instance is a float)
+                    targets = a[1].items if isinstance(a[1], Tup) else [a[1]]
+                    if all(isinstance(t_, Ref) and isinstance(t_.target, (Class, Ext)) for t_ in targets):
+                        base_names = set()
+                        for b_ in getattr(a[0].cls, 'bases', []) or []:
+                            base_names.add(getattr(b_, 'id', None) or getattr(b_, 'attr', None))
+                        hit = False
+                        for t_ in targets:
+                            if isinstance(t_.target, Class):
+                                hit = hit or (a[0].cls is t_.target) or (t_.target.name in base_names)
+                            else:
+                                hit = hit or (t_.target.name.split('.')[-1] in base_names)
+                        return Bool(hit)
                 if isinstance(a[0], Rat) and isinstance(a[1], Ref) and isinstance(a[1].target, Ext) and a[0].as_fraction() is not None:
                     fr = a[0].as_fraction()
                     if a[1].target.name == 'builtins.int':
@@ -1733,6 +1759,20 @@ class Evaluator(object):
                         return fill
                     return [build(ds[1:]) for _ in range(ds[0])]
                 return Mat(build(dims), dims)
+        if short == 'pad' and len(a) >= 2 and isinstance(a[0], Mat) and len(a[0].shape) == 2 and isinstance(a[1], Tup) and not [k_ for k_ in kwargs if k_ not in ('mode', 'constant_values')]:
+            # numpy.pad(m, ((top, bottom), (left, right))) with the default constant 0: the result has the ELEMENT TYPE OF m
+            w_ = []
+            for t_ in a[1].items:
+                if isinstance(t_, Tup) and len(t_.items) == 2 and all(_const_int(x_) is not None for x_ in t_.items):
+                    w_.append(tuple(_const_int(x_) for x_ in t_.items))
+            if len(w_) == 2 and all(0 <= x_ <= 64 for t_ in w_ for x_ in t_) and isinstance(kwargs.get('mode', Str('constant')), Str) \
+                    and kwargs.get('mode', Str('constant')).s == 'constant' and 'constant_values' not in kwargs:
+                r_, c_ = a[0].shape
+                rows = [[C(0)] * (w_[1][0] + c_ + w_[1][1]) for _ in range(w_[0][0])]
+                for row in a[0].data:
+                    rows.append([C(0)] * w_[1][0] + list(row) + [C(0)] * w_[1][1])
+                rows += [[C(0)] * (w_[1][0] + c_ + w_[1][1]) for _ in range(w_[0][1])]
+                return Mat(rows, (w_[0][0] + r_ + w_[0][1], w_[1][0] + c_ + w_[1][1]), 'literal')
         if short in ('matmul', 'dot') and len(a) == 2:
             return self.matmul(a[0], a[1], node)
         if short == 'transpose' and len(a) == 1 and isinstance(a[0], Mat):
@@ -2046,6 +2086,12 @@ class _ModuleScope(object):
 COND_NAMES = {'lt', 'le', 'gt', 'ge', 'eq', 'ne', 'and', 'or', 'not', 'in', 'notin', 'truthy', 'isinstance'}
 
 TRUNC_EVENTS = []    # (function, call node, exact value, double value, constants in scope): int() of an expression that truncates differently in double arithmetic
+def _dec_object_is_its_degrees(v):
+    if isinstance(v, Obj) and v.cls is not None and v.cls.name == 'DECAngle' and not v.origin and isinstance(v.fields.get('dec_angle'), (Rat, CallV)):
+        return v.fields['dec_angle']
+    return v
+
+
 DIV_EVENTS = []      # (function, node, denominator form, branch conditions) of every true division by a non-constant met by any evaluator
 INPLACE_EVENTS = []  # (function, statement, kind, array, value): in-place updates of arrays whose dtype follows the caller's numbers
 
